@@ -14,7 +14,7 @@ RULE = ("(i) Parameters.calculate_human_consumption_for_min_needs on a stub no-f
         "(zeros, ties, constant, sparse), headline = min over months of their total (the only shape the real caller produces), threshold "
         "T in [0,100]; (ii) get_second_round_kcals_with_redistributed_meat / fill_negatives_with_positives on generated pairs of monthly "
         "meat series (both orders of the totals, equal totals); (iii) increase_biofuels_then_feed on generated biofuel <= demand, feed <= "
-        "demand, increase >= 0, availability >= 0 (also below current use); (iv) the same oracles on the objects passed between the rounds "
+        "demand, increase >= 0, availability >= 0 (also below current use); (iv) the same oracles on the objects passed between the rounds (plus a re-entry of compute_parameters_second_round with the no-feed meat series scaled above the with-feed total: the only admissible hand-off is none) "
         "of drawn real runs.  Non-trivial = (i) a month where the ceiling cuts through the middle of the priority list, (ii) a pair with "
         "both surplus and deficit months, (iii) a month where availability or a demand cap binds, (iv) a run whose feed round executed; "
         "distinct by input hash.")
